@@ -911,6 +911,7 @@ func vspecCWM(src []byte) int { return vspecCW(src) + 2 + vspecBE16(src, vspecCW
 //@        && vspecLPOK(src, vspecCWM(src), len(src)) && sameslice(m.willMessage, src[vspecCWM(src)+2:vspecCWM(src)+2+vspecBE16(src, vspecCWM(src))])
 //@   ensures[C03:nowill] err == nil && !vspecCFWill(src[vspecCP(src)+1]) ==> len(m.willTopic) == 0 && len(m.willMessage) == 0
 //@   ensures[C09:willflag] err == nil ==> m.connectFlags == src[vspecCP(src)+1]
+//@   ensures[C05:sizes] err == nil ==> vdefConnSizes(m)
 //@   modifies m.protoName, m.version, m.connectFlags, m.keepAlive, m.clientID, m.willTopic, m.willMessage, m.username, m.password
 
 //@ func (*ConnectMessage).Decode
@@ -922,6 +923,7 @@ func vspecCWM(src []byte) int { return vspecCW(src) + 2 + vspecBE16(src, vspecCW
 //@   ensures[C04:inside] err == nil ==> within(m.mtypeflags, src, n) && within(m.dbuf, src, n) && within(m.protoName, src, n) && within(m.clientID, src, n) && within(m.willTopic, src, n) && within(m.willMessage, src, n) && within(m.username, src, n) && within(m.password, src, n)
 //@   ensures[C03:fields] err == nil ==> n == vspecH(src)+vspecVarintVal(src, 1) && int(m.remlen) == vspecVarintVal(src, 1) && sameslice(m.mtypeflags, src[0:1])
 //@   ensures[C03:clean] err == nil ==> !m.dirty && sameslice(m.dbuf, src[:n])
+//@   ensures[C05:sizes] err == nil ==> vdefConnSizes(m)
 //@   ensures[C11:other] typeis(err, ConnackCode) ==> isErr(err, ErrInvalidProtocolVersion) || isErr(err, ErrIdentifierRejected)
 //@   ensures[C11:level] vspecHdrOK(src, old(Type(m.mtypeflags[0]>>4))) && vspecLPOK(src, vspecH(src), vspecH(src)+vspecVarintVal(src, 1)) && vspecH(src)+2+vspecBE16(src, vspecH(src))+1 < vspecH(src)+vspecVarintVal(src, 1)
 //@        && !(haskey(SupportedVersions, src[vspecH(src)+2+vspecBE16(src, vspecH(src))]) && SupportedVersions[src[vspecH(src)+2+vspecBE16(src, vspecH(src))]] == string(src[vspecH(src)+2:vspecH(src)+2+vspecBE16(src, vspecH(src))])) ==> isErr(err, ErrInvalidProtocolVersion)
